@@ -4,12 +4,14 @@ CONSTANTS
     LibModes = {"startup", "dlopen"}
     SessModes = {"launch", "attach_pre", "attach_mid"}
     LibBiases = {300, 400}
+    LibBases = {0, 60}
     Kinds = {"fn", "line", "addr"}
     MaxReq = 1
     OffsetRule = "bias"
     ReloadRule = "rearm"
     EarlyAddrRule = "defer"
     AttachRule = "rbrk"
+    ReqPlan = "free"
     Emit = "none"
 SPECIFICATION Spec
 INVARIANTS RefSane InstalledAtTrueAddress ActiveWhenMapped SharedLibsAreMapped StopsWhereRequested NeverLost
